@@ -163,8 +163,9 @@ def run(ck):
             if real is None:
                 continue
             if real == "" or real == k:
-                ck.violation("missing:" + k, "message key %r (used at %s) has no text in any shipped language: Text(%r, key) returns %s" % (
-                    k, ", ".join(keysites[k][:2]), l, "the key itself" if real == k else "an empty string"),
+                ck.violation("missing:" + k, "message key %r (used at %s) does not resolve for language %r (neither that language nor English has text; "
+                             "languages with text: %s): Text returns %s" % (
+                    k, ", ".join(keysites[k][:2]), l, sorted(msgs.get(k, {})) or "none", "the key itself" if real == k else "an empty string"),
                     replay={"key": k, "lang": l, "sites": keysites[k][:5]})
                 break
             if placeholders(real) != en_ph:
